@@ -2,6 +2,7 @@ package psshd
 
 import (
 	"context"
+	"encoding/json"
 	"fmt"
 	"os"
 	"path/filepath"
@@ -10,6 +11,7 @@ import (
 	"sync"
 	"sync/atomic"
 	"syscall"
+	"testing"
 	"time"
 	"unicode/utf8"
 
@@ -665,7 +667,7 @@ func garbage(k int, longLen int, s sets, light bool, emit func(item)) {
 	})
 }
 
-func runGarbage(run *mc.Run, prop string) int {
+func runGarbage(t *testing.T, run *mc.Run, prop string) int {
 	k, long := 3, 2000
 	if run.Thorough() {
 		k, long = 4, 10000
@@ -676,6 +678,20 @@ func runGarbage(run *mc.Run, prop string) int {
 	s := fieldSets(false)
 	var sm sampler
 	var keyworded, emitted int64
+	if run.Replay != "" && prop == "C19" {
+		var rp struct{ Pid, Line, Order string }
+		if _, err := mc.LoadReplay(run.Replay, &rp); err == nil && rp.Order != "" {
+			var o c05obs
+			_ = oneC05obs(t, Exp{Line: rp.Line, Login: true}, rp.Pid, rp.Order, &o)
+			msg := checkC19(rp.Line, obs{Events: o.Events, Metrics: o.Metrics}, true)
+			fmt.Printf("order %s: events written %d, counters %s: %s\n", rp.Order, len(o.Events), renderDelta(o.Metrics), msg)
+			if msg != "" {
+				fmt.Printf("VIOLATION property=C19 replay=%s\n", run.Replay)
+				return 1
+			}
+			return 0
+		}
+	}
 	replayLine, replayPid := loadLineReplay(run)
 	if replayLine != "" || run.Replay != "" {
 		return replayOne(run, replayLine, replayPid)
@@ -714,9 +730,37 @@ func runGarbage(run *mc.Run, prop string) int {
 				fmt.Sprintf("pid %q line %q: %s\nemitted: %v logins: %d metrics: %s", it.pid, l, msg, o.Raw, len(o.Logins), renderDelta(o.Metrics)))
 		}
 	}, run.Expired)
+	handoffs := 0
+	if prop == "C19" {
+		// the counter follows the EVENT, not the hand-off of the login: every accepted-authentication line under
+		// every environment order of C05 in which the event is written (receiver ready, receiver late, nobody
+		// receives and the context is cancelled while the call is parked, context cancelled beforehand)
+		fs := fieldSets(false)
+		fs.users, fs.addrs, fs.keytypes = fs.users[:2], fs.addrs[:2], fs.keytypes[:2]
+		forms(fs, func(x Exp) {
+			if !x.Login || run.Expired() {
+				return
+			}
+			for _, ord := range []string{"receiver-first", "receiver-late", "never-cancel", "cancelled-before"} {
+				var o c05obs
+				_ = oneC05obs(t, x, "4711", ord, &o)
+				handoffs++
+				ob := obs{Events: o.Events, Metrics: o.Metrics}
+				if msg := checkC19(x.Line, ob, true); msg != "" {
+					run.Violation("C19:"+x.Form+":"+ord+":"+firstWords(msg, 3), map[string]any{"Pid": "4711", "Line": x.Line, "Order": ord, "Login": true, "Cred": x.Cred},
+						fmt.Sprintf("line %q, environment order %s: %s (events written: %d, counters: %s)", x.Line, ord, msg, len(o.Events), renderDelta(o.Metrics)))
+				}
+			}
+		})
+		n += int64(handoffs)
+	}
 	cov := mc.Coverage{Level: "exploration", Evaluations: int(n), Distinct: int(keyworded), Exhaustive: complete, Samples: sm.samples,
 		Rule:  fmt.Sprintf("(i) every string of <=%d tokens over a %d-token alphabet (all dispatch keywords, every connective/separator of the regular expressions, NUL, invalid UTF-8, newline, a %d-byte run); (ii) for every valid line of the reduced C06 product: every byte truncation, every single-token deletion and duplication, every connective inserted at every token boundary, every keyword swap, junk prefix/suffix, doubling; (iii) 8 odd pid tokens on every valid line; each through the real ProcessSshdLogEntry under recover. distinct_nontrivial = lines that begin with a dispatch keyword (reach a regular expression)", k, len(tokens)+1, long),
 		Extra: map[string]any{"lines_per_class": sm.forms, "lines_with_keyword": keyworded, "lines_that_emitted_an_event": emitted, "token_bound": k}}
+	if prop == "C19" {
+		cov.Rule += "; (iv) every accepted-authentication line x the C05 environment orders {receiver ready, receiver late, never received + cancelled while parked, cancelled beforehand} in a synctest bubble: the counter moves with the written event whatever becomes of the login hand-off"
+		cov.Extra["handoff_order_executions"] = handoffs
+	}
 	return run.Finish(cov)
 }
 
@@ -729,7 +773,7 @@ var nameTokens = []string{"a", " ", "from", "port", " from ", " port ", "1.2.3.4
 // extTokens: literal fragments of sshd's own message grammar and decorations that a parser may key on
 // (explored to a smaller depth together with the base tokens).
 var extTokens = []string{" [preauth]", " ssh2", ": ", "Invalid user ", "Failed password for ", "User ", " not allowed because ",
-	"maximum authentication attempts exceeded for ", "Accepted password for ", "\t", "\r", "(", ")", "[", "]", "%", ","}
+	"maximum authentication attempts exceeded for ", "Accepted password for ", "\t", "\r", "(", ")", "[", "]", "%", ",", "#012"}
 
 func runC17(run *mc.Run) int {
 	k, kext := 3, 2
@@ -744,7 +788,7 @@ func runC17(run *mc.Run) int {
 	if run.Replay != "" {
 		return replayOne(run, replayLine, replayPid)
 	}
-	n, complete := parallel(func(emit func(item)) {
+	gen := func(k, kext int, emit func(item)) {
 		names := map[string]bool{"": true}
 		var rec func(prefix string, d int)
 		rec = func(prefix string, d int) {
@@ -798,12 +842,8 @@ func runC17(run *mc.Run) int {
 				}
 			}
 		}
-	}, func(r *rig, it item) {
-		o := r.run(true, it.pid, it.x.Line, "")
-		if strings.Contains(it.x.LoggedAs, " from ") || strings.Contains(it.x.LoggedAs, " port ") {
-			atomic.AddInt64(&embedded, 1)
-		}
-		sm.add(it.x.Form, it.x.Line)
+	}
+	judge := func(it item, o obs, via string) {
 		msg := ""
 		switch {
 		case o.Panic != nil || o.Err != nil:
@@ -820,12 +860,77 @@ func runC17(run *mc.Run) int {
 			msg = "a login was forwarded for a failed attempt"
 		}
 		if msg != "" {
-			run.Violation("C17:"+it.x.Form+":"+firstWords(msg, 1), map[string]any{"pid": it.pid, "line": it.x.Line},
-				fmt.Sprintf("user name %q, line %q: %s\nemitted: %v", it.x.LoggedAs, it.x.Line, msg, o.Raw))
+			run.Violation("C17:"+it.x.Form+":"+via+firstWords(msg, 1), map[string]any{"pid": it.pid, "line": it.x.Line, "via": via},
+				fmt.Sprintf("user name %q, line %q %s: %s\nemitted: %v", it.x.LoggedAs, it.x.Line, via, msg, o.Raw))
 		}
+	}
+	n, complete := parallel(func(emit func(item)) { gen(k, kext, emit) }, func(r *rig, it item) {
+		o := r.run(true, it.pid, it.x.Line, "")
+		if strings.Contains(it.x.LoggedAs, " from ") || strings.Contains(it.x.LoggedAs, " port ") {
+			atomic.AddInt64(&embedded, 1)
+		}
+		sm.add(it.x.Form, it.x.Line)
+		judge(it, o, "")
 	}, run.Expired)
+	// the same lines as the log writer delivers them: written to a real FIFO read by the real syslog ingester
+	// (whatever the transport does to a line - splitting, unescaping, trimming - is part of what a client's
+	// name must not be able to exploit); names without CR (a CR would not survive rsyslog's own escaping).
+	var piped []item
+	gen(3, 2, func(it item) {
+		if !strings.ContainsAny(it.x.LoggedAs, "\r\n") {
+			piped = append(piped, it)
+		}
+	})
+	dir := os.Getenv("VERIF_BUILD")
+	if dir == "" {
+		dir = os.TempDir()
+	}
+	dir = filepath.Join(dir, "c17-fifos")
+	_ = os.MkdirAll(dir, 0o755)
+	var pwg sync.WaitGroup
+	pjobs := make(chan []item, 32)
+	var npiped int64
+	for wk := 0; wk < runtime.GOMAXPROCS(0); wk++ {
+		pwg.Add(1)
+		go func() {
+			defer pwg.Done()
+			for its := range pjobs {
+				var lines []string
+				for _, it := range its {
+					lines = append(lines, it.pid+" "+it.x.Line+"\n")
+				}
+				o := throughPipe(dir, lines)
+				atomic.AddInt64(&npiped, int64(len(its)))
+				if len(o.Events) == len(its) && o.Panic == nil && len(o.Logins) == 0 {
+					for i, it := range its {
+						judge(it, obs{Events: o.Events[i : i+1]}, "through-the-pipe:")
+					}
+					continue
+				}
+				for _, it := range its { // some line yields no event, several, or a login: each line alone
+					o := throughPipe(dir, []string{it.pid + " " + it.x.Line + "\n"})
+					for _, ev := range o.Events {
+						j, _ := json.Marshal(ev)
+						o.Raw = append(o.Raw, string(j))
+					}
+					judge(it, o, "through-the-pipe:")
+				}
+			}
+		}()
+	}
+	const pbatch = 500
+	for i := 0; i < len(piped) && !run.Expired(); i += pbatch {
+		j := i + pbatch
+		if j > len(piped) {
+			j = len(piped)
+		}
+		pjobs <- piped[i:j]
+	}
+	close(pjobs)
+	pwg.Wait()
+	n += npiped
 	cov := mc.Coverage{Level: "exploration", Evaluations: int(n), Distinct: int(embedded), Exhaustive: complete, Samples: sm.samples,
-		Rule:  fmt.Sprintf("user names = every string of <=%d tokens over %q, every string of <=%d tokens over those plus %d fragments of sshd's own message grammar (' [preauth]', ': ', 'Invalid user ', ...), capped at 100 bytes (sshd's %%.100s), plus the empty name and hand-made forgeries, x 3 peer addresses x 2 ports x 5 message forms, through the real ProcessSshdLogEntry; oracle: exactly one failed UserLogin whose source and port are the ones sshd appended. distinct_nontrivial = lines whose user name embeds ' from ' or ' port '", k, nameTokens, kext, len(extTokens)),
+		Rule:  fmt.Sprintf("user names = every string of <=%d tokens over %q, every string of <=%d tokens over those plus %d fragments of sshd's own message grammar (' [preauth]', ': ', 'Invalid user ', ...), capped at 100 bytes (sshd's %%.100s), plus the empty name and hand-made forgeries, x 3 peer addresses x 2 ports x 5 message forms, through the real ProcessSshdLogEntry, and (names of <=3 / <=2 tokens without CR) again as lines written to a real FIFO read by the real syslog ingester; oracle: exactly one failed UserLogin whose source and port are the ones sshd appended. distinct_nontrivial = lines whose user name embeds ' from ' or ' port '", k, nameTokens, kext, len(extTokens)),
 		Extra: map[string]any{"lines_per_form": sm.forms, "token_bound": k}}
 	return run.Finish(cov)
 }
